@@ -71,6 +71,17 @@ def plan_only_shrinks(j, old):
                                          and j.planned_jobs[s] is old(j).planned_jobs[s]))
 
 
+def before_seq(j, a, b):
+    """a is picked before b: lower start sequence first (min), higher stop sequence first (max)"""
+    return a < b if isinstance(j, ApplicationStartJobs) else a > b
+
+
+def plan_shrinks_in_order(j, old):
+    """sequence numbers leave the plan in pickup order (re-entrant next()) or all at once (ABORT / STOP)"""
+    return forall(int, int, lambda s, r: implies(
+        s in old(j).planned_jobs and s not in j.planned_jobs and r in j.planned_jobs, before_seq(j, s, r)))
+
+
 def in_flight_untouched(j, old):
     return forall(old(j).current_jobs, lambda c: command_untouched(c, old(c)))
 
@@ -81,7 +92,8 @@ def job_discipline(j, old):
     in-flight list by a re-entrant next() (never added from outside); planned groups that remain are the same list
     objects under the same sequence number (the plan only shrinks - possibly to a new empty dict: ABORT / STOP);
     commands that were in flight keep their target and timing data."""
-    return keeps_list(j, old) and only_removed_or_triggered(j, old) and plan_only_shrinks(j, old) and in_flight_untouched(j, old)
+    return (keeps_list(j, old) and only_removed_or_triggered(j, old) and plan_only_shrinks(j, old)
+            and plan_shrinks_in_order(j, old) and in_flight_untouched(j, old))
 
 
 def reports_untouched(old):
@@ -117,6 +129,7 @@ def reentrancy_discipline(old):
             and forall(ApplicationJobs, lambda j: implies(is_alloc(old(j)), only_removed_or_triggered(j, old)))
             and forall(ApplicationJobs, lambda j: implies(is_alloc(old(j)), plan_only_shrinks(j, old)))
             and forall(ApplicationJobs, lambda j: implies(is_alloc(old(j)), in_flight_untouched(j, old)))
+            and forall(ApplicationJobs, lambda j: implies(is_alloc(old(j)), plan_shrinks_in_order(j, old)))
             and reports_untouched(old) and other_command_lists_untouched(old))
 
 
